@@ -421,8 +421,8 @@ class Parser:
             v = self.next().v
             if v in ('const', 'constexpr'):
                 const = True
-            if v == 'static':
-                is_static = True
+            if v in ('static', 'thread_local'):
+                is_static = True          # static storage duration (per process or per thread): the variable outlives the call
         if self.peek().k == 'id' and self.peek().v in ('struct', 'class', 'enum'):
             self.next()
         t = self.peek()
